@@ -137,9 +137,12 @@ Struct(c, cs, i) ==
             ELSE "ok"
        [] OTHER -> "ok"
 
+\* evaluated on every observed state, for every registered indicator and every candle -- also on readings
+\* the call did not touch (C10: EVERY numeric reading is rounded to the indicator's round_value)
 TopCheck(c, cs, i) ==
   IF c.kind = "Amorph" THEN "ok"
   ELSE IF Gap(c, TopAt(c, cs, i - 1), TopAt(c, cs, i)) THEN "gap"
+  ELSE IF c.rv >= 0 /\ ~RoundedV(TopAt(c, cs, i), c.rv) THEN "round"
   ELSE Struct(c, cs, i)
 
 \* C15, second clause: the look-back precondition at one append.  pre is the candle list of one
